@@ -137,6 +137,27 @@ def rule_close(ctx):
     check_detach(ctx, "C14.CLOSE")
 
 
+def rule_exit(ctx):
+    p = ctx.p
+    ctx.rule("C14.EXIT", "the data stream's context exit and close() never suspend: the cancellation path of an aborted transfer cannot wait on the peer")
+    for cls in ("ThrottleStreamIO", "StreamIO"):
+        ms = p.methods(cls)
+        for name in ("__aexit__", "close"):
+            if name not in ms:
+                continue
+            fn = ms[name]
+            susp = may_suspend_fn(p, fn) if isinstance(fn, ast.AsyncFunctionDef) else False
+            ctx.ob("C14.EXIT", fn, f"{cls}.{name} has no suspension point", not susp,
+                   f"{cls}.{name} may suspend (e.g. waits for the peer to drain/close): a cancelled transfer hangs there, ABOR is never answered and the data connection stays open",
+                   construct=f"{cls}.{name}:suspends")
+        if "__aexit__" in ms:
+            closes = any(is_method_call(c, "close") for c in walk_no_nested(ms["__aexit__"]) if isinstance(c, ast.Call))
+            uncond = closes and not any(isinstance(x, (ast.If, ast.Try)) for x in walk_no_nested(ms["__aexit__"]))
+            ctx.ob("C14.EXIT", ms["__aexit__"], f"{cls}.__aexit__ closes the stream unconditionally (also on cancellation)", uncond,
+                   f"{cls}.__aexit__ does not close the stream on every exit", construct=f"{cls}.__aexit__:close")
+    ctx.floor("C14.EXIT", 3)
+
+
 def rule_cli(ctx):
     p = ctx.p
     ctx.rule("C14.CLI", "the client's abort(wait=True) expects 226 and waits through 426")
@@ -159,4 +180,4 @@ def rule_cli(ctx):
            "the client's waiting ABOR does not expect 226 while waiting through 426", construct="abort:masks")
 
 
-RULES = [rule_outer, rule_abor, rule_done, rule_close, rule_cli]
+RULES = [rule_outer, rule_abor, rule_done, rule_close, rule_exit, rule_cli]
